@@ -363,3 +363,73 @@ Proof.
   rewrite Hc. unfold line_position. rewrite Ha.
   exact (draw_string_cell F s text pos (t_base ts) i c dx dy Hf Hd Hix Hi Hdx Hdy).
 Qed.
+
+(* ====================================================================== bounding box = hull of the line boxes *)
+(* (a) it contains every line box: text_bbox_contains_line_box above.
+   (b) it is the smallest such rectangle: every rectangle that contains all line boxes contains it. *)
+Definition line_box (f : font) (s : cstyle) (ts : tstyle) (lp : list Z * point) : rect :=
+  fst (measure_string f s (fst lp) (snd lp) (t_base ts)).
+
+Definition mm_inside (c : rect) (mm : option (point * point)) : Prop :=
+  match mm with
+  | Some (mn, mx) => contains c mn = true /\ contains c mx = true
+  | None => True
+  end.
+
+Lemma update_mm_inside c mm bb :
+  mm_inside c mm -> (forall q, contains bb q = true -> contains c q = true) ->
+  mm_inside c (update_min_max mm bb).
+Proof.
+  intros Hm Hb. unfold update_min_max. destruct (bottom_right bb) as [br|] eqn:E; [|exact Hm].
+  unfold bottom_right in E. destruct ((0 <? sw (sz bb)) && (0 <? sh (sz bb))) eqn:Epos; [|discriminate].
+  injection E as <-.
+  assert (Htl : contains c (tl bb) = true) by (apply Hb, contains_spec; lia).
+  assert (Hbr : contains c (P (px (tl bb) + sw (sz bb) - 1) (py (tl bb) + sh (sz bb) - 1)) = true)
+    by (apply Hb, contains_spec; cbn [px py]; lia).
+  destruct mm as [[mn mx]|]; cbn [mm_inside] in *; [|split; assumption].
+  destruct Hm as [Hmn Hmx]. apply contains_spec in Htl, Hbr, Hmn, Hmx. cbn [px py] in Hbr.
+  split; apply contains_spec; cbn [px py]; lia.
+Qed.
+
+Lemma fold_mm_inside c (g : list Z * point -> rect) ls : forall mm,
+  mm_inside c mm -> (forall lp q, In lp ls -> contains (g lp) q = true -> contains c q = true) ->
+  mm_inside c (fold_left (fun acc lp => update_min_max acc (g lp)) ls mm).
+Proof.
+  induction ls as [|lp ls IH]; intros mm Hm Hb; cbn [fold_left]; [exact Hm|].
+  apply IH.
+  - apply update_mm_inside; [exact Hm|]. intros q Hq. apply (Hb lp q); [left; reflexivity|exact Hq].
+  - intros lp' q Hin Hq. apply (Hb lp' q); [right; exact Hin|exact Hq].
+Qed.
+
+Theorem text_bbox_smallest f s ts pos text c :
+  (forall lp q, In lp (text_lines f s ts pos text) -> contains (line_box f s ts lp) q = true -> contains c q = true) ->
+  forall q, contains (text_bbox f s ts pos text) q = true -> contains c q = true.
+Proof.
+  intros Hb q Hq. unfold text_bbox in Hq.
+  pose proof (fold_mm_inside c (line_box f s ts) (text_lines f s ts pos text) None I Hb) as H.
+  unfold line_box in H.
+  destruct (fold_left _ _ None) as [[mn mx]|].
+  - cbn [mm_inside] in H. destruct H as [Hmn Hmx]. apply with_corners_spec in Hq.
+    apply contains_spec in Hmn, Hmx. apply contains_spec. lia.
+  - rewrite contains_zero_width in Hq. discriminate.
+Qed.
+
+Theorem text_bbox_contains_line_boxes f s ts pos text lp q :
+  In lp (text_lines f s ts pos text) -> contains (line_box f s ts lp) q = true ->
+  contains (text_bbox f s ts pos text) q = true.
+Proof. destruct lp as [line p]. apply text_bbox_contains_line_box. Qed.
+
+(* no non-empty line: the zero-sized box at the text position *)
+Theorem text_bbox_all_empty f s ts pos text :
+  0 <= f_cw f -> 0 <= f_sp f ->
+  (forall line p, In (line, p) (text_lines f s ts pos text) -> line = []) ->
+  text_bbox f s ts pos text = R pos (S 0 0).
+Proof.
+  intros H1 H2 He. unfold text_bbox.
+  assert (E : forall ls, (forall line p, In (line, p) ls -> line = []) ->
+              fold_left (fun acc lp => update_min_max acc (fst (measure_string f s (fst lp) (snd lp) (t_base ts)))) ls None = None).
+  { induction ls as [|[l p] ls IH]; intros H; [reflexivity|]. cbn [fold_left fst snd].
+    rewrite (H l p (or_introl eq_refl)). rewrite measure_string_eq by assumption. cbn [fst length line_width].
+    unfold update_min_max, bottom_right. cbn [sz sw]. cbn. apply IH. intros l' p' Hin. apply (H l' p'). right. exact Hin. }
+  rewrite E by exact He. reflexivity.
+Qed.
